@@ -234,6 +234,15 @@ func (e *FEnc) instr(st *State, b *ssa.BasicBlock, idx int, in ssa.Instruction) 
 		elem := x.Type().Underlying().(*types.Slice).Elem()
 		base := e.fresh("mk", "Ref")
 		e.locs = append(e.locs, base)
+		// a new array shares no memory with what the function was handed: it is not the backing array of any
+		// slice parameter
+		for _, p := range e.fn.Params {
+			if _, ok := p.Type().Underlying().(*types.Slice); ok {
+				if pv := e.vals[p]; pv != nil && pv.T != "" {
+					e.fact(not(eq(base, fmt.Sprintf("(sl_base %s)", pv.T))))
+				}
+			}
+		}
 		hn, hs := e.d.heapElem(elem)
 		h := e.heapGet(st, hn, hs)
 		arrSort := "(Array Int " + e.sortOf(elem) + ")"
